@@ -136,6 +136,15 @@ fn case(rng: &mut Rng, ctx: &mut Ctx, idx: u64) {
             if streaming_resp && script.msgs.is_empty() {
                 script.msgs.push(gen_msg(rng, 0));
             }
+            // the error arrives while a message larger than two default yield thresholds (and one
+            // HTTP/2 window) is still on its way out
+            if streaming_resp && rng.chance(1, 4) {
+                let n = script.msgs.len();
+                let sz = *rng.pick(&[70_000usize, 140_000]);
+                script.msgs.push(Msg { data: rng.payload(sz), seq: 77, tag: "large".into() });
+                script.pend.resize(n + 1, 0);
+                ctx.count("resp.large_message_then_error");
+            }
         }
         "encode_failure" => {
             // one message over the server's encoding limit, possibly after smaller ones
